@@ -327,7 +327,10 @@ TypeOK == /\ epc \in {"new", "idle", "statroot", "walk", "emit", "rootgone", "go
           /\ (Root \in DOMAIN fs => WellFormed(fs)) /\ (Root \notin DOMAIN fs => fs = Empty)
           /\ \A p, q \in DOMAIN fs : p # q => fs[p].ino # fs[q].ino
 
-\* vacuity guards for the _cover config (each must be reported violated = reachable)
+\* the number of initial trees, printed once: checks/c10.py compares it with its own enumeration
+ASSUME PrintT(<<"C10INIT", Cardinality(InitTrees)>>)
+
+\* reachability probes (not used by a config; kept for manual runs: each is violated = reachable)
 CoverMoved    == ~(Polled /\ \E i \in 1..Len(out) : out[i].cls \in {"FileMoved", "DirMoved"})
 CoverFaulted  == ~(Polled /\ flt # NoFault /\ out # <<>>)
 CoverRootGone == ~(epc = "gone" /\ Root \in DOMAIN fs)
